@@ -12,10 +12,11 @@ import logging
 import os
 import secrets
 import shutil
+import signal
 import sys
 import tempfile
 from pathlib import Path
-from typing import Optional
+from typing import Any, Optional
 
 import click
 
@@ -274,6 +275,15 @@ def report(ctx: click.Context, tjp_file: Optional[str], output_csv: bool, output
     auto_report_id = ""
     stdin_temp_file: Optional[Path] = None
     temp_output_dir: Optional[Path] = None
+
+    # A supervisor or a closing terminal ends the run like Ctrl-C does: through the clean-up below
+    def _terminate(signum: int, _frame: Any) -> None:
+        raise SystemExit(128 + signum)
+
+    for _name in ("SIGTERM", "SIGHUP"):
+        if hasattr(signal, _name):
+            with contextlib.suppress(ValueError, OSError):
+                signal.signal(getattr(signal, _name), _terminate)
 
     try:
         # Check if reading from stdin
